@@ -5,10 +5,10 @@
    notifications pending) or some thread that found the queue empty when it appended has yet to send its signal
    (or, for the internal thread, the owner has yet to send StartInternalThread's initial signal).
 
-   For the default InternalThreadEntry this holds for every program of every thread.  For the event-driven
-   InternalThreadEntry (which blocks before it has looked at its queue) it holds under the contract [owner_sends_ci]
-   (only the owner sends to the internal thread); without it the unlocked, too-early read of HasItems() in
-   StartInternalThread loses a wake-up (see ThreadQProofs.evd_lost_wakeup_refuted). *)
+   This holds for every program of every thread and for both kinds of internal thread, for StartInternalThread as
+   repaired ([early] = false: needsInitialSignal is read under the lock after the socket pair and the thread exist).
+   With the order the code had before ([early] = true) an event-driven internal thread can lose a wake-up
+   (ThreadQProofs.evd_lost_wakeup_refuted). *)
 From Coq Require Import List Arith Bool Lia.
 From Muscle Require Import Conc.ThreadQ Conc.ThreadQWf.
 Import ListNotations.
@@ -44,9 +44,9 @@ Qed.
 (* ---------- the tokens ---------- *)
 
 (* a thread that owes the internal thread a signal: it appended to an empty queue, or it is StartInternalThread
-   with needsInitialSignal set *)
+   which has yet to look at the queue (under the lock) or has found it non-empty (needsInitialSignal) *)
 Definition is_pend_i (p : pc) : bool :=
-  match p with PSendSig CI true | PStartSig true => true | _ => false end.
+  match p with PSendSig CI true | PStartSpawned | PStartCheck | PStartSig true => true | _ => false end.
 
 Definition is_pend_o (p : pc) : bool :=
   match p with PSendSig CO true => true | _ => false end.
@@ -85,18 +85,10 @@ Definition A_o (s : sys) : Prop := parked_o s = true -> c_q (g_co (s_g s)) <> []
 Definition P_o (s : sys) : Prop :=
   forall w, l_pc (s_l s 0) = PRecvPark CO w -> g_sockets (s_g s) = true -> g_alloc (s_g s) = true.
 
-(* the contract's footprint on the state, and the accuracy of needsInitialSignal (event-driven threads only) *)
-Definition in_ci_send (p : pc) : bool := match p with PSendCS CI _ | PSendSig CI _ => true | _ => false end.
-
-Definition nociu (s : sys) : Prop := forall t, t <> 0 -> in_ci_send (l_pc (s_l s t)) = false.
-
-Definition B_i (s : sys) : Prop := forall n, l_pc (s_l s 0) = PStartSpawn n -> n = negb (is_nil (c_q (g_ci (s_g s)))).
-
 Record wake (s : sys) : Prop := mkWake {
   wk_ai : A_i s;
   wk_ao : A_o s;
-  wk_po : P_o s;
-  wk_strict : g_evd (s_g s) = true -> nociu s /\ B_i s
+  wk_po : P_o s
 }.
 
 (* ---------- readability facts ---------- *)
@@ -248,7 +240,8 @@ Section Wake.
 Variable absorb_n : nat.
 Variable react : nat -> list msg * bool.
 
-Notation Step := (Step absorb_n react).
+(* StartInternalThread as repaired *)
+Notation Step := (Step false absorb_n react).
 
 (* frames of a user thread's step with respect to the internal thread's queue *)
 Ltac sig_frame Hs :=
@@ -264,7 +257,7 @@ Proof.
   intros s t p k c g' l' e' W Wk El Hst.
   pose proof (wf_wfg _ _ _ W) as Wg.
   assert (Hu : upc_ok t (mkL p k)) by (rewrite <- El; apply (wf_upc _ _ _ W)).
-  destruct Wk as [Ai Ao Po Hstrict].
+  destruct Wk as [Ai Ao Po].
   inversion Hst; subst; clear Hst; unfold upc_ok in Hu; simpl in Hu; try contradiction.
   - (* enqueue *)
     destruct x.
@@ -305,15 +298,12 @@ Proof.
   - apply A_i_transfer; auto. rewrite El. reflexivity.
   - apply A_i_transfer; auto. rewrite El. reflexivity.
   - apply A_i_transfer; auto. rewrite El. reflexivity.
-  - (* the thread is created *)
-    destr_k k. subst t.
-    pose proof (alloc_frame (s_g s)) as F. simpl in F. destruct F as (F1 & F2 & F3 & F4 & F5 & F6 & F7).
-    unfold A_i, tok_i. simpl. rewrite F2. intros _ Hw Hq.
-    destruct (g_evd (s_g s)) eqn:Ee; simpl in Hw; [|discriminate].
-    destruct (Hstrict eq_refl) as [_ B].
-    right. apply pendU_upd_new. simpl.
-    rewrite (B needs) by (rewrite El; reflexivity).
-    destruct (F7 CI) as (Q & _). simpl in Q. rewrite Q in Hq.
+  - (* the thread is created: the owner has yet to check the queue *)
+    unfold A_i, tok_i. simpl. intros _ _ _. right. apply pendU_upd_new. reflexivity.
+  - (* ... it is about to *)
+    unfold A_i, tok_i. simpl. intros _ _ _. right. apply pendU_upd_new. reflexivity.
+  - (* ... it does, under the lock *)
+    unfold A_i, tok_i. simpl. intros _ _ Hq. right. apply pendU_upd_new. simpl.
     destruct (c_q (g_ci (s_g s))); [contradiction | reflexivity].
   - (* the initial signal *)
     sig_frame H3.
@@ -349,8 +339,8 @@ Proof.
   intros s p k c g' l' e' W Wk Hl El Hst.
   pose proof (wf_wfg _ _ _ W) as Wg.
   assert (Hi : ipc_ok (mkL p k)) by (rewrite <- El; apply (wf_ipc _ _ _ W); exact Hl).
-  destruct Wk as [Ai Ao Po Hstrict].
-  pose proof (Step_const _ _ _ _ _ _ _ _ Hst) as [Hc1 Hc2].
+  destruct Wk as [Ai Ao Po].
+  pose proof (Step_const _ _ _ _ _ _ _ _ _ Hst) as [Hc1 Hc2].
   assert (Look : forall q, will_look (g_evd (s_g s)) q = true -> l_pc l' = q -> A_i (mkS (set_il l' g') (s_l s))).
   { intros q Hq Hp. apply A_i_looks. simpl. rewrite Hc2, Hp. exact Hq. }
   assert (Keep : g_ist g' = g_ist (s_g s) -> c_q (g_ci g') = c_q (g_ci (s_g s)) ->
@@ -419,7 +409,7 @@ Proof.
   intros s t p k c g' l' e' W Wk El Hst.
   pose proof (wf_wfg _ _ _ W) as Wg.
   assert (Hu : upc_ok t (mkL p k)) by (rewrite <- El; apply (wf_upc _ _ _ W)).
-  destruct Wk as [Ai Ao Po Hstrict].
+  destruct Wk as [Ai Ao Po].
   destruct (Nat.eq_dec t 0) as [Ht | Ht].
   - (* the owner's own step *)
     subst t.
@@ -493,7 +483,7 @@ Proof.
   intros s p k c g' l' e' W Wk Hl El Hst.
   pose proof (wf_wfg _ _ _ W) as Wg.
   assert (Hi : ipc_ok (mkL p k)) by (rewrite <- El; apply (wf_ipc _ _ _ W); exact Hl).
-  destruct Wk as [Ai Ao Po Hstrict].
+  destruct Wk as [Ai Ao Po].
   assert (Same : g' = s_g s -> is_pend_o p = false -> A_o (mkS (set_il l' g') (s_l s))).
   { intros -> Hp. apply A_o_transfer_int; auto. rewrite El. exact Hp. }
   inversion Hst; subst; clear Hst; unfold ipc_ok in Hi; simpl in Hi; try contradiction;
@@ -579,20 +569,15 @@ Qed.
 
 (* the program counter a user thread's step leads to *)
 Lemma Step_pc_user : forall t c g l g' l' ev, upc_ok t l -> Step c g l g' l' ev ->
-  (forall w, l_pc l' = PRecvPark CO w -> l_pc l = PRecvNone CO w /\ g' = g /\ (g_sockets g = true -> g_alloc g = true)) /\
-  (in_ci_send (l_pc l') = true -> in_ci_send (l_pc l) = true \/ t = 0) /\
-  (forall n, l_pc l' = PStartSpawn n -> l_pc l = PStartRead /\ g' = g /\ n = negb (is_nil (c_q (g_ci g)))).
+  forall w, l_pc l' = PRecvPark CO w -> l_pc l = PRecvNone CO w /\ g' = g /\ (g_sockets g = true -> g_alloc g = true).
 Proof.
   intros t c g l g' l' ev Hu HS.
   inversion HS; subst; clear HS; unfold upc_ok in Hu; simpl in Hu; try contradiction;
     repeat match goal with y : chanid |- _ => destruct y | y : msg |- _ => destruct y end; simpl in Hu; try contradiction;
     try (destruct k as [|[] [|? ?]]; simpl in Hu; try contradiction; kill_ret);
-    simpl; repeat split; intros; try discriminate; auto;
-    try match goal with Hq : PRecvPark _ _ = PRecvPark _ _ |- _ => inv Hq end; auto.
-  all: try (match goal with Hf : _ -> fd_ok _ CO = true |- _ => specialize (Hf H); unfold fd_ok in Hf;
-              apply andb_true_iff in Hf; destruct Hf as [Hf _]; apply andb_true_iff in Hf; tauto end).
-  all: try (match goal with Hq : PStartSpawn _ = PStartSpawn _ |- _ => inv Hq; reflexivity end).
-  match goal with Hf : _ -> fd_ok _ CO = true, Hs : g_sockets _ = true |- _ => specialize (Hf Hs); unfold fd_ok in Hf;
+    simpl; intros; try discriminate;
+    try match goal with Hq : PRecvPark _ _ = PRecvPark _ _ |- _ => inv Hq end; repeat split; auto.
+  match goal with Hf : _ -> fd_ok _ CO = true |- _ => intros Hs; specialize (Hf Hs); unfold fd_ok in Hf;
     rewrite Hs in Hf; simpl in Hf; rewrite andb_true_r in Hf; exact Hf end.
 Qed.
 
@@ -601,11 +586,8 @@ Qed.
 Variable ok : label -> bool.
 Variables smode emode : bool.
 
-(* the event-driven InternalThreadEntry needs the contract; the default one needs nothing *)
-Hypothesis Hmode : emode = true -> forall lab, ok lab = true -> owner_sends_ci lab = true.
-
-Notation sys_step := (sys_step absorb_n react).
-Notation reachable_if := (reachable_if absorb_n react).
+Notation sys_step := (sys_step false absorb_n react).
+Notation reachable_if := (reachable_if false absorb_n react).
 
 Lemma wake_init : wake (sys0 smode emode).
 Proof.
@@ -613,7 +595,6 @@ Proof.
   - intros H. discriminate.
   - intros H. discriminate.
   - intros w H. discriminate.
-  - intros _. split; [intros t _; reflexivity | intros n H; discriminate].
 Qed.
 
 Lemma wf_self : forall s, wf smode emode s -> wf (g_sockets (s_g s)) (g_evd (s_g s)) s.
@@ -621,8 +602,7 @@ Proof. intros s W. rewrite (wf_sockets _ _ _ W), (wf_evd _ _ _ W). exact W. Qed.
 
 Lemma pc_of_op_facts : forall o,
   is_pend_i (pc_of_op o) = false /\ is_pend_o (pc_of_op o) = false /\
-  (forall w, pc_of_op o <> PRecvPark CO w) /\ (forall n, pc_of_op o <> PStartSpawn n) /\
-  (in_ci_send (pc_of_op o) = true -> exists m, o = OSend CI m) /\
+  (forall w, pc_of_op o <> PRecvPark CO w) /\
   (match pc_of_op o with PRecvPark CO _ | PRecvNone CO _ => false | _ => true end) = true.
 Proof.
   intros o. destruct o as [[] ?| | | | | ]; simpl; repeat split; intros; try discriminate; eauto.
@@ -639,8 +619,8 @@ Proof.
     unfold begin_op in Hb. destruct (l_pc (s_l s t)) eqn:Hp; try discriminate.
     destruct (l_k (s_l s t)) eqn:Hk; try discriminate.
     destruct (allowed t o) eqn:Ha; [|discriminate]. inv Hb.
-    destruct (pc_of_op_facts o) as (O1 & O2 & O3 & O4 & O5 & O6).
-    destruct Wk as [Ai Ao Po Hstrict].
+    destruct (pc_of_op_facts o) as (O1 & O2 & O3 & O6).
+    destruct Wk as [Ai Ao Po].
     constructor.
     + apply A_i_transfer; auto. rewrite Hp. reflexivity.
     + destruct (Nat.eq_dec t 0) as [-> | Ht].
@@ -651,20 +631,12 @@ Proof.
     + intros w. simpl. unfold upd. destruct (Nat.eqb_spec 0 t).
       * simpl. intros Hq. exfalso. eapply O3; eauto.
       * apply Po.
-    + simpl. intros Hev. destruct (Hstrict Hev) as [N B]. split.
-      * intros u Hu. simpl. unfold upd. destruct (Nat.eqb_spec u t); [subst u | apply N; exact Hu].
-        simpl. destruct (in_ci_send (pc_of_op o)) eqn:Ec; [|reflexivity].
-        destruct (O5 eq_refl) as [m ->].
-        rewrite (wf_evd _ _ _ W0) in Hev. specialize (Hmode Hev _ Hok). simpl in Hmode. apply Nat.eqb_eq in Hmode. congruence.
-      * intros n. simpl. unfold upd. destruct (Nat.eqb_spec 0 t).
-        -- simpl. intros Hq. exfalso. eapply O4; eauto.
-        -- apply B.
   - (* a user thread's step *)
-    destruct (step absorb_n react c (s_g s) (s_l s t)) as [[[g' l'] e']|] eqn:Hst; [|discriminate]. inv H.
+    destruct (step false absorb_n react c (s_g s) (s_l s t)) as [[[g' l'] e']|] eqn:Hst; [|discriminate]. inv H.
     apply step_spec in Hst.
     destruct (s_l s t) as [p k] eqn:El.
     assert (Hu : upc_ok t (mkL p k)) by (rewrite <- El; apply (wf_upc _ _ _ W)).
-    pose proof (Step_pc_user _ _ _ _ _ _ _ Hu Hst) as (PC1 & PC2 & PC3).
+    pose proof (Step_pc_user _ _ _ _ _ _ _ Hu Hst) as PC1.
     constructor.
     + eapply A_i_user_step; eauto.
     + eapply A_o_user_step; eauto.
@@ -676,24 +648,9 @@ Proof.
         -- subst p. unfold upc_ok in Hu. simpl in Hu. destruct k; [congruence | contradiction].
         -- subst p. unfold upc_ok in Hu. simpl in Hu. destruct k as [|[] [|]]; try contradiction; congruence.
         -- subst p. unfold upc_ok in Hu. simpl in Hu. destruct k; [congruence | contradiction].
-    + (* the contract's footprint *)
-      simpl. intros Hev.
-      assert (Hev0 : g_evd (s_g s) = true).
-      { destruct (Step_const _ _ _ _ _ _ _ _ Hst) as [_ Hc]. congruence. }
-      destruct (wk_strict _ Wk Hev0) as [N B]. split.
-      * intros u Hu0. simpl. unfold upd. destruct (Nat.eqb_spec u t); [subst u | apply N; exact Hu0].
-        destruct (in_ci_send (l_pc l')) eqn:Ec; [|reflexivity].
-        destruct (PC2 eq_refl) as [Hc | Hc]; [|congruence].
-        simpl in Hc. specialize (N t Hu0). rewrite El in N. simpl in N. congruence.
-      * intros n. simpl. unfold upd. destruct (Nat.eqb_spec 0 t) as [<- | Ht].
-        -- intros Hq. destruct (PC3 n Hq) as (_ & -> & Hn). exact Hn.
-        -- intros Hq. destruct (Step_qi_user _ _ _ _ _ _ _ Hu Hst) as [Q | [m Hm]].
-           ++ rewrite Q. apply B. exact Hq.
-           ++ simpl in Hm. subst p. assert (Ht' : t <> 0) by congruence.
-              specialize (N t Ht'). rewrite El in N. simpl in N. discriminate.
   - (* the internal thread's step *)
     destruct (g_ist (s_g s)) eqn:Hl; try discriminate.
-    destruct (step absorb_n react c (s_g s) (g_il (s_g s))) as [[[g' l'] e']|] eqn:Hst; [|discriminate]. inv H.
+    destruct (step false absorb_n react c (s_g s) (g_il (s_g s))) as [[[g' l'] e']|] eqn:Hst; [|discriminate]. inv H.
     apply step_spec in Hst.
     destruct (g_il (s_g s)) as [p k] eqn:El.
     assert (Hi : ipc_ok (mkL p k)) by (rewrite <- El; apply (wf_ipc _ _ _ W); exact Hl).
@@ -704,13 +661,6 @@ Proof.
       destruct (Step_alloc _ _ _ _ _ _ Hst) as [[A1 A2] | [[n Hn] | [Hj | Hg]]]; simpl in *;
         try (subst p; unfold ipc_ok in Hi; simpl in Hi; contradiction).
       rewrite A1. rewrite A2 in Hs. eapply (wk_po _ Wk); eauto.
-    + simpl. intros Hev.
-      assert (Hev0 : g_evd (s_g s) = true).
-      { destruct (Step_const _ _ _ _ _ _ _ _ Hst) as [_ Hc]. congruence. }
-      destruct (wk_strict _ Wk Hev0) as [N B]. split; [exact N|].
-      intros n Hq. exfalso.
-      pose proof (wf_start_idle _ _ _ W n Hq) as Hr. pose proof (wf_running _ _ _ W) as Hr2.
-      rewrite Hl, Hr in Hr2. discriminate.
 Qed.
 
 Theorem reachable_wake : forall s, reachable_if ok smode emode s -> wake s.
